@@ -4,6 +4,8 @@ import (
 	"fmt"
 	"time"
 
+	"github.com/pdok/texel/tms20"
+
 	hc "verif/hcommon"
 )
 
@@ -56,8 +58,47 @@ func runC06(c *hc.Ctx) error {
 			c.Sample(caseJSON(g, poly, ids, cfg, r))
 		}
 	}
+	// tile matrices deeper than level 32 (pixel addresses no longer fit the 32-bit Morton halves)
+	for _, name := range []string{"UPSArcticWGS84Quad", "NZTM2000Quad", "NetherlandsRDNewQuad"} {
+		t, err := loadSet(name)
+		if err != nil {
+			continue
+		}
+		for k := 0; k < c.N(6, 60); k++ {
+			id := maxID(t) - c.Rng.Intn(3)
+			g, err := gridFor(name, t, id, false)
+			if err != nil || g.Deep <= 32 || g.Res < 8 {
+				continue
+			}
+			size := int64(1) << g.Deep
+			var ring []Pt
+			bx, by := c.Rng.Int63n(size-8), c.Rng.Int63n(size-8)
+			for v := 0; v < 4; v++ {
+				x, _ := fixRoundTrip(g.Ext[0] + (bx+c.Rng.Int63n(8))*g.Res + g.Res/2)
+				y, _ := fixRoundTrip(g.Ext[1] + (by+c.Rng.Int63n(8))*g.Res + g.Res/2)
+				ring = append(ring, Pt{x, y})
+			}
+			poly := [][]Pt{ring}
+			if !g.inGrid(poly) {
+				continue
+			}
+			r := runSnap(g, poly, []int{id}, randCfg(c.Rng), 20*time.Second)
+			c.Sum.Evaluations++
+			c.Count("deeper than level 32")
+			if r.Panic != "" {
+				v := hc.Violation{What: "SnapPolygon panicked on an in-grid polygon: " + r.Panic, Input: caseJSON(g, poly, []int{id}, randCfg(c.Rng), nil), Observed: r.PanicMsg}
+				if r.Panic == "MustToZ" && g.Deep > 32 {
+					v.KnownFinding = "F11"
+					v.What = fmt.Sprintf("tile matrices deeper than level 32 cannot be snapped: MustToZ panics (e.g. %s id %d = level %d) (F11)", name, id, g.Deep)
+				}
+				c.Violate(v)
+			}
+		}
+	}
 	return nil
 }
+
+func loadSet(name string) (tms20.TileMatrixSet, error) { return tms20.LoadEmbeddedTileMatrixSet(name) }
 
 // collapses: the output has fewer vertices than the input at some level, or a level is missing / has points-and-lines.
 func collapses(g *Grid, poly [][]Pt, r *Result) bool {
